@@ -188,7 +188,15 @@ def _do(op: str, idx: int, env: dict | None = None) -> dict[str, bytes]:
         if op == "otfad_export":
             # the key blob's 4-byte random filler is too short for a collision-free oracle; the exported (wrapped) blob
             # must still differ between two blobs because key and counter do
-            out["otfad_wrapped"] = kb.export(kek=bytes(16))[:40]
+            blob = kb.export(kek=bytes(16))
+            out["otfad_wrapped"] = blob[:40]
+            # the 4-byte filler inside the wrapped part (RFC 3394 unwrap with the harness's own AES): judged as a set, see run_history
+            from vf.ref import aes as _aes
+
+            for k in range(4):  # four blobs: enough for the set oracle in every history that has this step
+                plain = _aes.key_unwrap(bytes(16), (blob if k == 0 else KeyBlob(0x08001000, 0x080013FF).export(kek=bytes(16)))[:48])
+                if plain is not None:
+                    out["~otfad_filler%d" % k] = plain[32:36]
         return out
     if op in ("iee_xts", "iee_ctr"):
         from spsdk.utils.crypto.iee import IeeKeyBlob, IeeKeyBlobAttribute, IeeKeyBlobKeyAttributes, IeeKeyBlobLockAttributes, IeeKeyBlobModeAttributes
@@ -254,6 +262,7 @@ def run_history(case, o: Oracle) -> None:
     seen: dict[str, dict[bytes, int]] = {}
     _STATE["hist"] = _STATE.get("hist", 0) + 1
     env = {"workdir": os.path.join(_STATE.get("scratch", "."), "c17-hist-%d-%d" % (os.getpid(), _STATE["hist"]))}
+    fillers: list = []
     for idx, op in enumerate(ops):
         values = None
         with o.spsdk("construct", op):
@@ -262,6 +271,11 @@ def run_history(case, o: Oracle) -> None:
             continue
         for kind, val in values.items():
             val = bytes(val)
+            if kind.startswith("~"):
+                # too short for pairwise distinctness (two of a few dozen 32-bit values may coincide by chance); four or more that are
+                # all the same cannot (2^-96): the value is then not drawn per blob
+                fillers.append(val)
+                continue
             if len(val) < 8:
                 raise AssertionError("value %s too short for a distinctness oracle" % kind)
             prev = seen.setdefault(kind, {}).get(val)
@@ -269,6 +283,9 @@ def run_history(case, o: Oracle) -> None:
                 o.fail("fresh", "reused:%s" % kind, "step %d (%s) and step %d (%s) share %s = %s" % (prev, ops[prev], idx, op, kind, val.hex()))
             else:
                 seen[kind][val] = idx
+    if len(fillers) >= 4:
+        o.label("otfad_fillers>=4")
+        o.check("fresh", len(set(fillers)) > 1, "constant:otfad_filler", "%d key blobs of one history carry the same filler %s" % (len(fillers), fillers[0].hex()))
     import shutil
 
     shutil.rmtree(env["workdir"], ignore_errors=True)
@@ -332,6 +349,8 @@ def run_fleet(case, o: Oracle) -> None:
     seen: dict[str, dict[str, int]] = {}
     for pi, res in enumerate(results):
         for kind, vals in res.items():
+            if kind.startswith("~"):
+                continue  # short values are judged as a set inside one history only
             for v in vals:
                 prev = seen.setdefault(kind, {}).get(v)
                 if prev is not None:
@@ -397,6 +416,8 @@ def run_fork(case, o: Oracle) -> None:
     seen: dict = {}
     for pi, res in enumerate(results):
         for kind, vals in res.items():
+            if kind.startswith("~"):
+                continue  # short values are judged as a set inside one history only
             for v in vals:
                 prev = seen.setdefault(kind, {}).get(v)
                 if prev is not None:
